@@ -1,6 +1,7 @@
 CONSTANTS
 NRpcs = {1, 2}
 MaxFrames = 3
+ValDepth = 0
 Mutant = 1
 INIT Init
 NEXT Next
